@@ -1,5 +1,6 @@
 import LolHtml.Thm.FullHintDefs
 import LolHtml.Lemmas.HintCtl
+import LolHtml.Thm.C06_EndTag
 /-!
 # Package `full`, part 9 — `Full_no_panic_partial3`: the reduction in the world with the ghost hint kind
 
@@ -68,5 +69,17 @@ theorem Full_no_panic_partial3 (Inv : ∀ cfg, Disp (FullStH cfg) → Prop) (h1 
     rcases hee with rfl | rfl
     · exact hG
     · rw [hG.parseErr]; exact hG
+
+/-- bridge to package scan (for hypothesis 2, E half): the dispatcher guarded by `kindGuardE` is package scan's
+`guardOps … PendE`, so `C06_relex_end_tag` applies to it once `EndLawsD` is shown for `PendE` -/
+theorem guardS_kindGuardE_eq {γ : Type} (ops : SinkOps (Disp (γ × Option Bool))) :
+    guardS kindGuardE ops = LolHtml.Thm.C06.guardOps ops PendE := by
+  unfold guardS kindGuardE LolHtml.Thm.C06.guardOps
+  congr 1
+  funext inp lx d
+  dsimp only
+  by_cases hc : (PendE d && lx.outline.isStart) = true
+  · simp only [hc, if_true]
+  · simp only [hc, if_false, Bool.false_eq_true]
 
 end LolHtml.Thm.Full
